@@ -428,7 +428,7 @@ pub fn run() -> Report {
     for cb in CBS {
         for h in 0..6u64 {
             let flen = small.files[&h].len;
-            for f in ["removed", "emptied", "offset-past-eof", "offset-in-last-3-bytes", "offset-plus-2^32", "offset-plus-2^33", "offset-with-bit-63", "offset-plus-2^16-past-eof", "pruned", "record-names-missing-file-plus-2^32", "record-names-missing-file-plus-2^16", "record-names-missing-file-plus-2^8", "record-names-missing-file-plus-2^63"] {
+            for f in ["removed", "emptied", "offset-past-eof", "offset-in-last-3-bytes", "offset-plus-2^32", "offset-plus-2^33", "offset-with-bit-63", "offset-plus-2^16-past-eof", "pruned", "record-names-missing-file-plus-2^32", "record-names-missing-file-plus-2^16", "record-names-missing-file-plus-2^8", "record-names-missing-file-plus-2^63", "removed-but-set-aside-copies-left"] {
                 cases.push(Case::Input { cb, height: h, fault: f.into(), range: (None, None) });
                 // the same fault with the block being the first / an inner / the last block of a requested range
                 for (rs, re) in [(Some(2u64), None), (None, Some(3u64)), (Some(1), Some(4))] {
@@ -542,6 +542,17 @@ pub fn run() -> Report {
                         "emptied" => {
                             f.chunks.clear();
                             f.len = 0;
+                        }
+                        // the file is gone, but copies of it under names that CONTAIN its name or number stand next to it
+                        // (set aside by hand, left by a backup tool): they are not blk files
+                        "removed-but-set-aside-copies-left" => {
+                            let bytes = f.dense();
+                            let name = f.name.clone();
+                            let stem = name.trim_end_matches(".dat").to_string();
+                            world.files.remove(height);
+                            for n in [format!("{}.bak.dat", stem), format!("{}.dat.bak", stem), format!("{}.dat.old.dat", stem), format!("{}.1.dat", stem), format!("{}_copy.dat", stem), format!("old_{}", name), format!("{}.DAT", stem), format!("{} .dat", stem), format!("{}.dat~", stem)] {
+                                world.extra.push(refmodel::world::Extra::File(n, bytes.clone()));
+                            }
                         }
                         // what a pruning node leaves: the blk file is gone and the index record says so (validity kept, no
                         // HAVE_DATA / HAVE_UNDO, no file position)
